@@ -350,7 +350,8 @@ Definition memo (k : N) (p : P node) : P node :=
         end
     end.
 
-(* parse_method_call caches successes only: every `?` before set_cache returns early *)
+(* parse_method_call cached successes only before /repo c0beeea (every `?` before set_cache returned early);
+   kept for the regression theorems about the old step *)
 Definition memo_ok_only (k : N) (p : P node) : P node :=
   fun i c =>
     let n := ilen i in
